@@ -703,8 +703,8 @@ def main(argv=None):
     ck = Check("C14", argv)
     tmp = common.setup_impl_env()
     ck.run_witnesses(["w10", "w19"])
-    extra = ["Bridge/BridgeMigration.v"] if os.path.exists(os.path.join(common.COQ, "Bridge", "BridgeMigration.v")) else []
-    ck.prove(extra_targets=extra, gen_kernels=["migration_loop", "migration_names"] if extra else [])
+    ck.prove(extra_targets=["Bridge/BridgeMigration.v"],
+             gen_kernels=["migration_loop", "migration_names", "migration_init"])
     have_driver = ck.driver()
 
     n_random = 110 if ck.tier == "quick" else 6000
